@@ -6,5 +6,5 @@ Cd "../ocaml/gen".
 Extraction "m_c07.ml" check_client_hello_version check_supported_versions server_negotiate_version peer_of
   ver_get_highest ver_get_highest_tls ver_get_lowest_tls ver_from_encoding check_server_hello_version downgrade_check ips negotiate_group
   key_share_group client_accept_hrr_group client_accept_share_group choose_sigalg client_accept_sigalg
-  get_cipher_spec choose_suite default_suite_list server_client_hello client_server_hello scsv_inappropriate run_ops dinit scfg_after mem Z.of_N.
+  get_cipher_spec choose_suite default_suite_list server_client_hello client_server_hello scsv_inappropriate run_ops dinit scfg_after parse_supported_groups parse_sigalgs choose_sigalg_int client_ske server_cv_alg server_client_hello_g mem Z.of_N.
 Cd "../../coq".
